@@ -1,6 +1,7 @@
 //! vh -- conformance harness binding the TLA+ specification in /verif/spec to contentauth/c2pa-rs.
 mod common;
 mod c04;
+mod c13;
 
 fn main() {
     let args: Vec<String> = std::env::args().skip(1).collect();
@@ -11,6 +12,8 @@ fn main() {
         "c04-replay" => c04::replay(rest),
         "c04-observe" => c04::observe(rest),
         "c04-legacy" => c04::legacy(rest),
+        "c13-replay" => c13::replay(rest),
+        "c13-record" => c13::record(rest),
         _ => {
             eprintln!("unknown command {cmd}");
             std::process::exit(2);
